@@ -562,6 +562,18 @@ class Shaper:
                         nf = norm_fmt(fmt)
                         out.append(("P", nf[0] if nf else f"?{fmt}", src, nf[1] if nf else None))
                         return "None"
+                    # bytes produced by something the shaper cannot see through (a module-level callable object such
+                    # as a bound `Struct(..).pack`, a constant computed by a call): not modelled, never "raw bytes"
+                    for x in ast.walk(a):
+                        nm = x.func.id if isinstance(x, ast.Call) and isinstance(x.func, ast.Name) else (x.id if isinstance(x, ast.Name) and isinstance(x.ctx, ast.Load) else None)
+                        if nm is None or nm in env:
+                            continue
+                        r = self.p.resolve(f.mod, nm)
+                        if r and r[0] == "value":
+                            vals = [r[2]] if not isinstance(r[2], list) else r[2]
+                            if any(isinstance(v, (ast.Call, ast.Attribute)) for v in vals):
+                                out.append(("unk", f"bytes written come from the module-level object {nm}"))
+                                break
                     src = self._expr(f, a, env, out)
                     out.append(("R", src))
                     return "None"
@@ -660,6 +672,11 @@ class Shaper:
         if passes_codec:
             # call through a table / stored callable with the codec object
             cs = self.cg.by_node.get(id(call))
+            if cs is not None and getattr(cs, "ctor_of", None) is not None:
+                # an object of a program class built around the codec: what it does with it later (context manager,
+                # iterator protocol) is not followed
+                out.append(("unk", f"object of class {cs.ctor_of.name} constructed with the codec"))
+                return "?"
             if cs is not None and cs.targets:
                 out.append(("T", norm(fn), args_txt, [t.id for t in cs.targets]))
                 return self._newtok()
